@@ -66,8 +66,9 @@ func verifCheckPlaceholder(errs []*Error, s *yaml.Node, exempt bool) {
 // HarnessC03Skeleton: every scalar value of the clean skeleton, replaced in
 // turn by a malformed placeholder, must be diagnosed at that scalar.
 func HarnessC03Skeleton() {
-	doc, sites := verifSkeletonSites()
+	doc, sites := verifFullSkeletonSites()
 	site := sites.scalars[verifChoose("scalar", len(sites.scalars))]
+	site.node.Tag, site.node.Style = "!!str", 0
 	site.node.Value = verifBadExpr
 	verifPlace(doc, 1, 0)
 	errs := verifLintNode(doc, verifRules())
